@@ -41,6 +41,7 @@ CONSTANTS
   Settings, KeyName, Keys, ValLists, ShortVals, InitDicts, AllowBad, ProbeKeys, NProbe, MaxRecs,
   FirstKeys, FirstFlavs,      \* partition of the history runs: key and kind of the first operation on the keyed table
   RCConfs, MaxRows,
+  SortMaxRows,                \* sort is explored on tables of at most this many rows (it enumerates permutations)
   GridMaxN, GridMaxCols, AxSize,
   CombVals, CombMaxLists, CombMaxLen
 
@@ -141,7 +142,7 @@ RCNext ==
   /\ \/ /\ RCM_Size(m) < MaxRows /\ ~RCM_Ragged(m)
         /\ \/ \E r \in Conf.rows \cup Conf.short : RCDo([op |-> "append_list", row |-> r])
            \/ \E r \in Conf.dicts \cup Conf.baddicts : RCDo([op |-> "append_dict", row |-> r])
-     \/ /\ ~RCM_Ragged(m)
+     \/ /\ ~RCM_Ragged(m) /\ RCM_Size(m) <= SortMaxRows
         /\ \E name \in Conf.sortnames, rev \in BOOLEAN : RCSort(name, rev)
 
 (* -------------------------------- DataPlotGrid ------------------------------- *)
@@ -188,10 +189,10 @@ Excused == tags # {} /\ tags \subseteq KnownDevs          \* a named deviation r
 
 Refines == (Stateful /\ judged /\ ~Excused) => (MObs = IObs /\ ret.m = ret.i)
 PTSync == (which = "pt" /\ judged) => (m.keys = D_Keys(m.data) /\ m.keys = i.order)
-SortRefines == (IsRC /\ judged /\ tags = {}) =>
+SortRefines == (IsRC /\ judged /\ tags = {} /\ Len(i.rows) <= SortMaxRows) =>
   \A name \in Range(i.cols), rev \in BOOLEAN :
      {RCM_Abs(mm) : mm \in RCM_SortResults(m, name, rev)} = RCI_SortResults(i, name, rev)
-SortForms == (IsRC /\ judged) =>
+SortForms == (IsRC /\ judged /\ Len(i.rows) <= SortMaxRows) =>
   \A name \in Range(i.cols), rev \in BOOLEAN :
      {t2.rows : t2 \in RCI_SortResults(i, name, rev)}
        = {rr \in [1..Len(i.rows) -> Range(i.rows)] : RCI_SortOK(i, [i EXCEPT !.rows = rr], name, rev)}
